@@ -720,6 +720,25 @@ def job_analyze(job):
                 raise
             except Exception as ex:
                 co.update(exc=type(ex).__name__, msg=str(ex)[:300])
+        if "allcum" in want:
+            # the path of the expansion actions: cli.common.get_all_cumulants with --at_n (one call per n)
+            from cli.common import get_all_cumulants
+            for g in list(job.get("stat_goals", job.get("goals", [])))[:1]:
+                co = cout.setdefault(g, {})
+                try:
+                    monom = symengine.sympify(g)
+                    per_k = {}
+                    for n in range(N + 1):
+                        a2 = Namespace(**dict(vars(cli_args), at_n=n))
+                        cums = get_all_cumulants(program, monom, K, a2)
+                        for k, c in cums.items():
+                            per_k.setdefault(str(k), {})[n] = c
+                    co["cumulants_at_n"] = {k: [[eval_closed_form(byn[n], pt, n) for n in range(N + 1)] for pt in points]
+                                            for k, byn in per_k.items()}
+                except JobTimeout:
+                    raise
+                except Exception as ex:
+                    co["cumulants_at_n_exc"] = f"{type(ex).__name__}: {str(ex)[:200]}"
         res["stats"] = cout
     return res
 
@@ -1193,7 +1212,16 @@ def job_invariants(job):
     res["closed_forms"] = {k: str(v)[:1000] for k, v in closed_forms.items()}
     res["K"] = max([get_max_case_in_piecewise(v) for v in closed_forms.values()] + [-1])
     N = job.get("N", 8)
-    res["values"] = {k: [eval_closed_form(v, {}, n) for n in range(N + 1)] for k, v in closed_forms.items()}
+    point = job.get("point") or {}
+    res["values"] = {k: [eval_closed_form(v, point, n) for n in range(N + 1)] for k, v in closed_forms.items()}
+    for pre in job.get("pre", []):
+        # earlier invariant computations of the same process (their results are not used)
+        try:
+            InvariantIdeal({k: sympy.sympify(v, locals={"n": sympy.Symbol("n", integer=True)}) for k, v in pre.items()}).compute_basis()
+        except JobTimeout:
+            raise
+        except Exception:
+            pass
     try:
         basis = InvariantIdeal(closed_forms).compute_basis()
     except JobTimeout:
@@ -1206,7 +1234,9 @@ def job_invariants(job):
     for b in basis:
         try:
             P = sympy.Poly(sympy.expand(b), *syms)
-            out.append({"text": str(b)[:500], "terms": [[frac_str(c), [int(e) for e in mono]] for mono, c in P.terms()]})
+            # symbolic program constants live in the coefficients: the reported element is instantiated at the point
+            sub = {sympy.Symbol(k): sympy.Rational(v) for k, v in point.items()}
+            out.append({"text": str(b)[:500], "terms": [[frac_str(sympy.sympify(c).xreplace(sub)), [int(e) for e in mono]] for mono, c in P.terms()]})
         except Exception as ex:
             out.append({"text": str(b)[:500], "unsupported": f"{type(ex).__name__}: {ex}"[:200]})
     res["basis"] = out
